@@ -642,14 +642,26 @@ def main(argv):
 
 
 def do_replay(prop, path):
+    """print the replay file and re-run its failing input on the implementation (both build profiles) and on the model"""
     rep = json.load(open(path))
     print(json.dumps(rep, indent=1))
     fi = rep.get("failing_input")
     if fi and fi.get("case"):
+        cases = [c.strip() for c in fi["case"].split(" ; ") if c.strip()]
         bins = build_harness(["release", "chk"])
-        for prof in ("release", "chk"):
-            r = subprocess.run([bins[prof], "run", "--verbose"], input=fi["case"] + "\n", stdout=subprocess.PIPE, text=True)
-            print("[%s] %s" % (prof, r.stdout.strip()))
+        try:
+            modelrun = build_model()
+        except Broken:
+            modelrun = None
+        for case in cases:
+            for prof in ("release", "chk"):
+                r = subprocess.run([bins[prof], "run", "--verbose"], input=case + "\n", stdout=subprocess.PIPE,
+                                   stderr=subprocess.PIPE, text=True)
+                print("[implementation, %s] %s" % (prof, r.stdout.strip() or "(not a runnable case: %s)" % case))
+            if modelrun:
+                r = subprocess.run(["bash", "-c", "ulimit -s unlimited; exec \"$@\"", "x", modelrun, "--verbose"],
+                                   input=case + "\n", stdout=subprocess.PIPE, stderr=subprocess.PIPE, text=True)
+                print("[model] %s" % (r.stdout.strip() or "(not a runnable case)"))
     return 0
 
 
